@@ -629,6 +629,12 @@ checkMessage(CS104_Connection self, uint8_t* buffer, int msgSize)
 {
     bool retVal = true;
 
+    /* every APDU has a start octet, a length octet and four control octets */
+    if (msgSize < 6) {
+        DEBUG_PRINT("message too small!\n");
+        return false;
+    }
+
     if ((buffer[2] & 1) == 0) /* I format frame */
     {
         if (self->timeoutT2Trigger == false) {
